@@ -11,6 +11,7 @@ cases:
   type-label-page-end  the same with the label ending exactly at the end of a page-sized file
   create-event-no-payload  OHC without payload: 'ovniemu -d' reads through a NULL payload (C19 R19.3)
   stale-jumbo-flag     a valid VYc jumbo event followed by a non-jumbo VYc with 8 bytes (C12 R12.5)
+  equal-clocks-region  sort region with 300 equal-clock events (C16 R16.1: stability of ovnisort)
   cpu-index-redefined  the same CPU index bound to two physical ids (C15 R15.4: must be an error message)
   cpus-decreasing      two CPUs listed with decreasing index (C15 R15.1: emulator crashes)
 """
@@ -77,5 +78,13 @@ elif case == "cpus-decreasing":
     write(out, [X, E(30)], meta_extra={"loom_cpus": [{"index": 1, "phyid": 1}, {"index": 0, "phyid": 0}]})
 elif case == "cpu-index-redefined":
     write(out, [X, E(30)], meta_extra={"loom_cpus": [{"index": 0, "phyid": 0}, {"index": 0, "phyid": 5}]})
+elif case == "equal-clocks-region":
+    # an unsorted region with 300 events of equal clock, distinguishable by their payload, that
+    # have to be moved before a later-clocked event: after sorting they must keep their order
+    evs = [X, ev("OB.", 50), ev("OB.", 100), ev("OU[", 101)]
+    for i in range(300):
+        evs.append(ev("OB.", 60, struct.pack("<I", i)))
+    evs += [ev("OU]", 102), E(200)]
+    write(out, evs)
 else:
     sys.exit("unknown case")
